@@ -289,7 +289,10 @@ class TlsHandshakeHelloRandomBytes(Vector):
 
 @attr.s
 class TlsHandshakeHelloRandom(ParsableBase):
-    time = attr.ib(validator=attr.validators.instance_of(datetime.datetime))
+    time = attr.ib(
+        converter=lambda value: value.replace(microsecond=0) if isinstance(value, datetime.datetime) else value,
+        validator=attr.validators.instance_of(datetime.datetime)
+    )
     random = attr.ib(validator=attr.validators.instance_of(TlsHandshakeHelloRandomBytes))
 
     @time.default
